@@ -110,7 +110,37 @@ def runOps (opt rev : Bool) (ops : List Op) : Outcome :=
         | .ok d => go s' rest (s!"e={e} {d}" :: outs)
   go {} ops []
 
+/-- `gk <perm> <elements>`: groups `{p}` for every digit of `perm`, the data column `c = {sumi {.} 1}` (initial 0),
+every element sampled; the records of `csv.WriteAccumulator` and `Parts()` of every group key. -/
+def runGk (perm : String) (elems : List Bytes) : String :=
+  let digits : List Char := if perm = "-" then [] else perm.toList
+  let gops : List Op := (List.range digits.length).map fun i =>
+    Op.group (ascii s!"g{i}") (ascii s!"\{{digits.getD i '0'}}")
+  let ops := gops ++ [Op.data (ascii "c") (ascii "{sumi {.} 1}") (ascii "0")] ++ elems.map Op.sample
+  let rec go (s : AccGroup) (ops : List Op) : Except Outcome AccGroup :=
+    match ops with
+    | [] => .ok s
+    | op :: rest =>
+      match step s true op with
+      | .error o => .error o
+      | .ok (s', _) => go s' rest
+  match go {} ops with
+  | .error .panic => "panic"
+  | .error (.unmodelled n) => "unmodelled " ++ n
+  | .error (.ok _) => "bad-args"
+  | .ok s =>
+    match s.csvRows, s.groups bLt with
+    | .ok rows, .ok gs =>
+      s!"ok n={s.groupColCount} rows={"|".intercalate (rows.map hexList)} parts={"|".intercalate (gs.map fun k => hexList (groupKeyParts k))}"
+    | _, _ => "panic"
+
 def handle : List String → Option String
+  | ["parts", k] => some <| match Hex.dec k with
+    | some k => "ok " ++ hexList (groupKeyParts k)
+    | none => "bad-args"
+  | ["gk", perm, es] => some <| match decHexList es with
+    | some es => runGk perm es
+    | none => "bad-args"
   | ["acc", o, r, ops] =>
     some <| match (if ops = "." then some [] else (ops.splitOn ",").mapM parseOp) with
     | none => "bad-args"
